@@ -450,7 +450,12 @@ def c17_cases(tier, rng):
             c["pps"] = [0x68, 0xEB, 0xE3, 0xCB][:pl]
             add([c], [w(1), w(1, ln=0)])
     # languages: empty, short, long, non-letters, non-ASCII
-    for lg in ("", "e", "en", "engl", "ENG", "123", "\x00\x00\x00", "eé", "日本語", "~~~", "   "):
+    # ... and every alignment of 1-, 2-, 3- and 4-byte characters (1 or 2 UTF-16 units) with the
+    # byte / character / UTF-16 positions 0..3 that a three-letter code is cut from
+    import itertools
+    pieces = ["a", "\u00e9", "\u65e5", "\U0001F600"]
+    aligned = ["".join(t) for k in (1, 2, 3) for t in itertools.product(pieces, repeat=k)] + ["na\u00efve", "zzzzzzzzzzzzzzzzzzzzzzzzzzzzzzzzzzzzzzzz"]
+    for lg in ["", "e", "en", "engl", "ENG", "123", "\x00\x00\x00", "eé", "日本語", "~~~", "   "] + aligned:
         c = full_conf(rng.choice(KINDS), 1000, rng)
         c["lang"] = list(lg.encode("utf-8"))
         add([c], [w(1)])
